@@ -833,7 +833,7 @@ func vC05Passthrough(c *vCtx, kind string, maxN int) {
 func init() {
 	vRegister(&vCheck{
 		ID: "C05", Level: "model_checking", Engine: "histmc",
-		Rule:        "For all 8 subsets of configured sub-indexes (flat vector, BM25, metadata): BFS over AddWithID/Add/Remove histories over documents carrying any subset of modalities (duplicate vectors and texts included); in every reached state every query of the alphabet (vector in {none,2} x text in {none, 3 single, 1 double} x 5 filter shapes x k in {1,2,3,10} x 5 fusion configurations x aggregation) is compared with: model filter set, exact filtered k-NN, reference BM25 top-k inside the candidates, the fusion rule, descending order, error for unconfigured modalities, empty result for a filter matching nothing. Queries whose per-modality cut falls on a tie (implementation-defined selection) are skipped and counted. Non-trivial = distinct (config, state, query) with a non-empty answer where something was excluded or removed, plus error / empty-filter cases.",
+		Rule:        "For all 8 subsets of configured sub-indexes (flat vector, BM25, metadata): BFS over AddWithID/Add/Remove histories over documents carrying any subset of modalities (duplicate vectors and texts included); in every reached state every query of the alphabet (vector in {none,2} x text in {none, 3 single, 1 double} x 5 filter shapes x k in {1,2,3,10} x 5 fusion configurations x aggregation) is compared with: model filter set, exact filtered k-NN, reference BM25 top-k inside the candidates, the fusion rule, descending order, error for unconfigured modalities, empty result for a filter matching nothing. Queries whose per-modality cut falls on a tie (implementation-defined selection) are skipped and counted. Non-trivial = distinct (config, state, query) with a non-empty answer where something was excluded or removed, plus error / empty-filter cases. Two documents carry a sparse numeric field; the filter alphabet includes the AND chains Eq(s,x), Lt(n,100) and Eq(s,x), Range(n,-10,10) (a comparison the number 0 would satisfy, on a field most documents lack).",
 		Assumptions: []string{"permissive corners accepted either way: both modalities queried but one returned nothing (raw vs fused score); queried modality empty with a non-empty filter set (empty vs score-1 fallback); RRF rank origin 0 or 1", "exact vector sub-index (flat) only"},
 		Shards: func(tier string) []vShard {
 			var sh []vShard
